@@ -166,7 +166,8 @@ def impl(case):
             sols = [list(s) for s in sol]
         else:
             sols = [list(sol)]  # single selection (also the `()` of the empty-matrix shortcut)
-        return {"status": r.status.name, "sols": sols, "objective": r.objective}
+        shape = "none" if sol is None else ("list" if isinstance(sol, list) else "single")
+        return {"status": r.status.name, "sols": sols, "objective": r.objective, "shape": shape}
 
     a, b = canon(r1), canon(r2)
     return {"res": a, "unchanged": unchanged, "same_again": a == b}
@@ -220,6 +221,11 @@ def judge(ctx, case, out, reply):
         ctx.fail(fn, "cover_for_infeasible", "a selection was returned although no exact cover exists", rep)
     if m_all and res["status"] not in ("MAX_ITER",) and not sols:
         ctx.fail(fn, "missed_cover", "no selection returned although covers exist and no cut-off was reported", rep)
+    nc_cols = len(case["matrix"][0]) if case["matrix"] else 0
+    if find_all and nc_cols > 0 and res.get("shape") == "single":
+        # only the documented no-columns shortcut may hand back a bare selection under find_all
+        ctx.fail(fn, "find_all_returns_single_selection",
+                 "find_all=True returned one bare selection instead of the list of all covers", rep)
     if sols is not None and find_all:
         got = sorted(tuple(sorted(s)) for s in sols)
         if len(set(got)) != len(got):
